@@ -77,6 +77,7 @@ func c05Gate(w *World, r *Report, exp *types.Named) {
 			for _, a := range callArgs(c.Common()) {
 				if root, p := accessPath(a); root == keyArg && len(p) == 1 && p[0] == "Algorithm" {
 					algAssert = c
+					_ = algAssert
 				}
 			}
 		}
@@ -89,6 +90,89 @@ func c05Gate(w *World, r *Report, exp *types.Named) {
 					validate = c
 				}
 			}
+		}
+		// the two algorithm gates, as predicates of a function and "its" key value: they may live in a
+		// helper that is handed the key and returns an error
+		findAlgAssert := func(f *ssa.Function, kv ssa.Value) *ssa.Call {
+			var out *ssa.Call
+			for _, c := range findCalls(f, func(c *ssa.CallCommon) bool {
+				callee := c.StaticCallee()
+				return callee != nil && callee.Signature.Recv() != nil && derefNamed(callee.Signature.Recv().Type()) == exp && lastResultIsError(c.Signature())
+			}) {
+				for _, a := range callArgs(c.Common()) {
+					if root, p := accessPath(a); root == kv && len(p) == 1 && p[0] == "Algorithm" {
+						out = c
+					}
+				}
+			}
+			return out
+		}
+		algAllowed := func(f *ssa.Function, kv ssa.Value) func(Fact) bool {
+			c := findAlgAssert(f, kv)
+			if c == nil {
+				return func(Fact) bool { return false }
+			}
+			return nilOf(isResult(c, 0))
+		}
+		algEqual := func(f *ssa.Function, kv ssa.Value) func(Fact) bool {
+			return func(f Fact) bool {
+				if l, k := lenFact(f); l != nil && k == "empty" && pathEndsWith(l, "Algorithm") {
+					if root, _ := accessPath(l); root != kv {
+						return true
+					}
+				}
+				if f.Kind == FCmp && f.Op == token.EQL {
+					rx, px := accessPath(f.X)
+					ry, py := accessPath(f.Y)
+					if len(px) > 0 && len(py) > 0 && px[len(px)-1] == "Algorithm" && py[len(py)-1] == "Algorithm" && (rx == kv) != (ry == kv) {
+						return true
+					}
+				}
+				return false
+			}
+		}
+		// gated: block is reachable only through the gate, directly or through the == nil edge of a
+		// helper call that is handed the key and whose own nil returns are gated
+		gated := func(block *ssa.BasicBlock, mk func(*ssa.Function, ssa.Value) func(Fact) bool) bool {
+			if onlyVia(fn, block, mk(fn, keyArg)) {
+				return true
+			}
+			for _, ci := range callsIn(fn) {
+				h, ok := ci.(*ssa.Call)
+				if !ok {
+					continue
+				}
+				H := h.Common().StaticCallee()
+				if H == nil || H.Blocks == nil || H == fn || fnPkgPath(H) != fnPkgPath(fn) || !lastResultIsError(h.Common().Signature()) {
+					continue
+				}
+				j := -1
+				for i, a := range h.Common().Args {
+					if stripConv(a) == keyArg {
+						j = i
+					}
+				}
+				if j < 0 || j >= len(H.Params) || !onlyVia(fn, block, nilOf(isResult(h, errIdx(h)))) {
+					continue
+				}
+				all := true
+				for _, hret := range returnsOf(H) {
+					mayNil := false
+					for _, s := range w.Sources(hret.Results[len(hret.Results)-1], hret.Block()) {
+						if s.Kind == "nil" {
+							mayNil = true
+						}
+					}
+					if mayNil && !onlyVia(H, hret.Block(), mk(H, H.Params[j])) {
+						all = false
+					}
+				}
+				if all {
+					r.Analysed(w.FnName(H))
+					return true
+				}
+			}
+			return false
 		}
 		for _, ret := range returnsOf(fn) {
 			rk := retKey(w, fn, ret)
@@ -103,26 +187,12 @@ func c05Gate(w *World, r *Report, exp *types.Named) {
 			}
 			ok1 := onlyVia(fn, ret.Block(), nilOf(isResult(K, errIdx(K))))
 			r.Ob(ri, key+"|"+rk+"|signature-verified", ret.Pos(), ok1, "success is reachable without passing the == nil edge of token.Claims(key, ...) (the signature verification)")
-			ok2 := algAssert != nil && onlyVia(fn, ret.Block(), nilOf(isResult(algAssert, 0)))
+			ok2 := gated(ret.Block(), algAllowed)
 			r.Ob(ri, key+"|"+rk+"|key-algorithm-allowed", ret.Pos(), ok2, "success is reachable without the key's algorithm having been asserted against the allowed algorithms")
 			ok3 := validate != nil && onlyVia(fn, ret.Block(), nilOf(isResult(validate, 0)))
 			r.Ob(ri, key+"|"+rk+"|claims-validated", ret.Pos(), ok3, "success is reachable without the verified claims having been validated against the assertions")
 			// algorithm agreement: header alg empty or equal to the key's
-			ok4 := onlyVia(fn, ret.Block(), func(f Fact) bool {
-				if l, k := lenFact(f); l != nil && k == "empty" && pathEndsWith(l, "Algorithm") {
-					if root, _ := accessPath(l); root != keyArg {
-						return true
-					}
-				}
-				if f.Kind == FCmp && f.Op == token.EQL {
-					rx, px := accessPath(f.X)
-					ry, py := accessPath(f.Y)
-					if len(px) > 0 && len(py) > 0 && px[len(px)-1] == "Algorithm" && py[len(py)-1] == "Algorithm" && (rx == keyArg) != (ry == keyArg) {
-						return true
-					}
-				}
-				return false
-			})
+			ok4 := gated(ret.Block(), algEqual)
 			r.Ob(ri, key+"|"+rk+"|header-alg-equals-key-alg", ret.Pos(), ok4, "success is reachable although the token header names another algorithm than the key declares (algorithm confusion)")
 			// payload from the verified destination
 			ok5 := false
@@ -411,9 +481,18 @@ func c05Assertions(w *World, r *Report, exp *types.Named) {
 				if len(findCalls(fn, isJWTClaimsCall)) == 0 {
 					continue
 				}
-				for _, gc := range callsIn(fn) {
-					if callee := gc.Common().StaticCallee(); callee != nil && callee.Name() == m && callee.Signature.Recv() != nil && derefNamed(callee.Signature.Recv().Type()) == exp {
-						usedByGate = true
+				// in the gate function itself or in a helper of the same package it calls
+				scope := []*ssa.Function{fn}
+				for _, hc := range callsIn(fn) {
+					if h := hc.Common().StaticCallee(); h != nil && h.Blocks != nil && fnPkgPath(h) == fnPkgPath(fn) {
+						scope = append(scope, h)
+					}
+				}
+				for _, g := range scope {
+					for _, gc := range callsIn(g) {
+						if callee := gc.Common().StaticCallee(); callee != nil && callee.Name() == m && callee.Signature.Recv() != nil && derefNamed(callee.Signature.Recv().Type()) == exp {
+							usedByGate = true
+						}
 					}
 				}
 			}
